@@ -41,16 +41,18 @@ func (e *ecCtx[P, F, S]) sc(label string) S {
 	})
 }
 
-func (e *ecCtx[P, F, S]) pt(label string) P { return e.curve.Generator().ScalarMul(e.sc("pt/" + label)) }
+func (e *ecCtx[P, F, S]) pt(label string) P {
+	return e.curve.Generator().ScalarMul(e.sc("pt/" + label))
+}
 
 // ---- Schnorr
 func schnorrCase[P curves.Point[P, F, S], F algebra.FieldElement[F], S algebra.PrimeFieldElement[S]](e *ecCtx[P, F, S]) *sigCase[*schnorr.Statement[P, S], *schnorr.Witness[S], *schnorr.Commitment[P, S], *schnorr.State[S], *schnorr.Response[S]] {
 	type (
-		X = *schnorr.Statement[P, S]
-		W = *schnorr.Witness[S]
-		A = *schnorr.Commitment[P, S]
+		X  = *schnorr.Statement[P, S]
+		W  = *schnorr.Witness[S]
+		A  = *schnorr.Commitment[P, S]
 		St = *schnorr.State[S]
-		Z = *schnorr.Response[S]
+		Z  = *schnorr.Response[S]
 	)
 	g := e.curve.Generator()
 	c := &sigCase[X, W, A, St, Z]{name: "schnorr/" + e.name}
@@ -71,11 +73,11 @@ func schnorrCase[P curves.Point[P, F, S], F algebra.FieldElement[F], S algebra.P
 // ---- batch Schnorr (k >= 2; k = 1 is refused by the constructor)
 func batchSchnorrCase[P curves.Point[P, F, S], F algebra.FieldElement[F], S algebra.PrimeFieldElement[S]](e *ecCtx[P, F, S], k int) *sigCase[*batch_schnorr.Statement[P, S], *batch_schnorr.Witness[S], *batch_schnorr.Commitment[P, S], *batch_schnorr.State[S], *batch_schnorr.Response[S]] {
 	type (
-		X = *batch_schnorr.Statement[P, S]
-		W = *batch_schnorr.Witness[S]
-		A = *batch_schnorr.Commitment[P, S]
+		X  = *batch_schnorr.Statement[P, S]
+		W  = *batch_schnorr.Witness[S]
+		A  = *batch_schnorr.Commitment[P, S]
 		St = *batch_schnorr.State[S]
-		Z = *batch_schnorr.Response[S]
+		Z  = *batch_schnorr.Response[S]
 	)
 	g := e.curve.Generator()
 	c := &sigCase[X, W, A, St, Z]{name: fmt.Sprintf("batchschnorr%d/%s", k, e.name)}
@@ -110,11 +112,11 @@ func batchSchnorrCase[P curves.Point[P, F, S], F algebra.FieldElement[F], S alge
 // ---- Okamoto (representation w.r.t. two generators)
 func okamotoCase[P curves.Point[P, F, S], F algebra.FieldElement[F], S algebra.PrimeFieldElement[S]](e *ecCtx[P, F, S]) *sigCase[*okamoto.Statement[P, S], *okamoto.Witness[S], *okamoto.Commitment[P, S], *okamoto.State[S], *okamoto.Response[S]] {
 	type (
-		X = *okamoto.Statement[P, S]
-		W = *okamoto.Witness[S]
-		A = *okamoto.Commitment[P, S]
+		X  = *okamoto.Statement[P, S]
+		W  = *okamoto.Witness[S]
+		A  = *okamoto.Commitment[P, S]
 		St = *okamoto.State[S]
-		Z = *okamoto.Response[S]
+		Z  = *okamoto.Response[S]
 	)
 	g := e.curve.Generator()
 	h := e.pt("okamoto/h")
@@ -161,11 +163,11 @@ func elcomopStmt[P curves.Point[P, F, S], F algebra.FieldElement[F], S algebra.P
 
 func elcomopCase[P curves.Point[P, F, S], F algebra.FieldElement[F], S algebra.PrimeFieldElement[S]](e *ecCtx[P, F, S]) *sigCase[*elcomop.Statement[P, S], *elcomop.Witness[P, S], *elcomop.Commitment[P, S], *elcomop.State[P, S], *elcomop.Response[P, S]] {
 	type (
-		X = *elcomop.Statement[P, S]
-		W = *elcomop.Witness[P, S]
-		A = *elcomop.Commitment[P, S]
+		X  = *elcomop.Statement[P, S]
+		W  = *elcomop.Witness[P, S]
+		A  = *elcomop.Commitment[P, S]
 		St = *elcomop.State[P, S]
-		Z = *elcomop.Response[P, S]
+		Z  = *elcomop.Response[P, S]
 	)
 	g := e.curve.Generator()
 	k := newEGKey(e)
@@ -194,11 +196,11 @@ func elcomopCase[P curves.Point[P, F, S], F algebra.FieldElement[F], S algebra.P
 
 func elogCase[P curves.Point[P, F, S], F algebra.FieldElement[F], S algebra.PrimeFieldElement[S]](e *ecCtx[P, F, S]) *sigCase[*elog.Statement[P, S], *elog.Witness[P, S], *elog.Commitment[P, S], *elog.State[P, S], *elog.Response[P, S]] {
 	type (
-		X = *elog.Statement[P, S]
-		W = *elog.Witness[P, S]
-		A = *elog.Commitment[P, S]
+		X  = *elog.Statement[P, S]
+		W  = *elog.Witness[P, S]
+		A  = *elog.Commitment[P, S]
 		St = *elog.State[P, S]
-		Z = *elog.Response[P, S]
+		Z  = *elog.Response[P, S]
 	)
 	g := e.curve.Generator()
 	h := e.pt("elog/h")
